@@ -479,3 +479,102 @@ for _b in (False, True):
     OBLIGATIONS.append(Ob('skip_unauthorized_flags' + ('_batch' if _b else ''), make_skip_flags(_b), [], timeout=tier(150, 400),
                           data='which of 3 elements the item guard refuses (3 symbolic bits)', selectors='dtml-in skip_unauthorized%s on a template class supplying guards' % (' size=9' if _b else ''),
                           outside='more than 3 elements'))
+
+
+# ---------------------------------------------------------------- wave 4
+T_NEST_ELSE = cooked('<dtml-let lv=one><dtml-in outer mapping prefix=g><dtml-in empty><dtml-var sequence-item><dtml-else>e</dtml-in><dtml-in gen><dtml-else>f</dtml-in>'
+                     '<dtml-call "rec(_)">.</dtml-in></dtml-let>|<dtml-var lv missing=UNBOUND>' + AFTER.replace('p_item', 'g_item'))
+
+
+def ob_nested_empty_else(n: int, a: int, b: int, c: int) -> bool:
+    """an inner dtml-in over an empty sequence (given by name; also an exhausted generator) renders its else body and leaves nothing behind:
+    the outer loop still sees its own variables in every iteration, and after the outer loop and an enclosing let everything is unbound"""
+    k = pick(n, 4)
+    xs = [a, b, c][:k]
+    items = [{'x': xs[i], 'i': i} for i in range(k)]
+    rec = Rec(prefix='g')
+    out = T_NEST_ELSE(outer=items, empty=[], gen=gen([]), rec=rec, one=1)
+    if k == 0:
+        return out == '|UNBOUND' + TAIL
+    return out == 'ef.' * k + '|UNBOUND' + TAIL and check_rows(rec.rows, items, xs, 0, k - 1, k, prefix='g')
+
+
+OBLIGATIONS.append(Ob('nested_empty_else', ob_nested_empty_else, ['0 <= n <= 3'], timeout=tier(250, 900), data='outer length 0..3, payloads',
+                      selectors='inner dtml-in over an empty list / exhausted generator with an else body, inside an outer dtml-in inside a let'))
+
+
+class MapLike:
+    """hand-written mapping-like container (keys/get/__getitem__/__len__/__iter__), not registered as collections.abc.Mapping:
+    dtml-in iterates its keys, like a dict"""
+
+    def __init__(self, keys):
+        self._k = list(keys)
+
+    def keys(self):
+        return list(self._k)
+
+    def get(self, k, d=None):
+        return 'v' if k in self._k else d
+
+    def __getitem__(self, k):
+        for x in self._k:
+            if x == k:
+                return 'v'
+        raise KeyError(k)
+
+    def __len__(self):
+        return len(self._k)
+
+    def __iter__(self):
+        return iter(self._k)
+
+
+def make_maplike(batch):
+    def ob(n: int, ka: int, kb: int, kc: int, dictlike: bool) -> bool:
+        k = pick(n, 4)
+        pool = ['s0', 'k1', 7, 's3']
+        items = []
+        for x in [ka, kb, kc][:k]:
+            v = pool[pick(x, 4)]
+            if v not in items:
+                items.append(v)
+        k = len(items)
+        seq = dict((v, 'v') for v in items) if dictlike else MapLike(items)
+        rec = Rec(with_x=False)
+        out = (T_PLAIN_B if batch else T_PLAIN)(seq=seq, rec=rec, x='outer')
+        tail = '|outer|UNBOUND|UNBOUND|UNBOUND'
+        if k == 0:
+            return out == 'EMPTY' + tail
+        return out == '.' * k + tail and check_rows(rec.rows, items, None, 0, k - 1, k)
+    ob.__name__ = 'ob_maplike_%s' % ('batch' if batch else 'plain')
+    return ob
+
+
+for _b in (False, True):
+    OBLIGATIONS.append(Ob('mapping_like_containers' + ('_batch' if _b else ''), make_maplike(_b), ['0 <= n <= 3', '0 <= ka < 4', '0 <= kb < 4', '0 <= kc < 4'], timeout=tier(250, 900),
+                          data='-', selectors='dtml-in over a dict / a hand-written mapping-like container with up to 3 distinct keys from a pool (strings and an int): iterated over its keys' + (', size=9' if _b else '')))
+
+T_RECUR = cooked('<dtml-in seq mapping><dtml-call "rec(tag, _)"><dtml-if "kids is not None and v == at"><dtml-call "T(None, _, seq=kids, tag=tag + 1, kids=None)"></dtml-if></dtml-in>')
+
+
+def ob_reentrant_unbatched(n: int, at: int, kn: int) -> bool:
+    """a recursive template: while the outer (unbatched) loop is at element `at`, the same template - the same compiled tag - loops over a
+    child sequence; afterwards the outer loop's sequence variables are its own again for the remaining elements"""
+    nn, kk = pick(n, 3) + 1, pick(kn, 3) + 1
+    a = pick(at, nn)
+    rows = []
+
+    def rec(tag, md):
+        rows.append((tag, md['v'], md['sequence-index'], md['sequence-number'], bool(md['sequence-start']), bool(md['sequence-end']), md['sequence-length']))
+        return ''
+    T_RECUR(T=T_RECUR, seq=[{'v': i} for i in range(nn)], kids=[{'v': 100 + j} for j in range(kk)], at=a, tag=0, rec=rec)
+    exp = []
+    for i in range(nn):
+        exp.append((0, i, i, i + 1, i == 0, i == nn - 1, nn))
+        if i == a:
+            exp += [(1, 100 + j, j, j + 1, j == 0, j == kk - 1, kk) for j in range(kk)]
+    return rows == exp
+
+
+OBLIGATIONS.append(Ob('reentrant_unbatched', ob_reentrant_unbatched, ['0 <= n < 3', '0 <= at < 3', '0 <= kn < 3'], timeout=tier(250, 900), data='outer length 1..3, recursing position, child length 1..3',
+                      selectors='template that calls itself from inside its own unbatched dtml-in (one compiled tag, two sequences)'))
